@@ -246,6 +246,10 @@ class _SimFile:
         self.mode = mode
         self.binary = 'b' in mode
         self.buf = io.BytesIO() if self.binary else io.StringIO()
+        if 'a' in mode:
+            # append: what the path already holds stays in front of what is written now
+            old = fs.files.get(path, b'')
+            self.buf.write(old if self.binary else old.decode())
         self.closed = False
         self.writes = 0
 
@@ -313,8 +317,13 @@ class SimFS:
         self.stats['open'] += 1
         if self._hit('open'):
             raise OSError(errno.EACCES, 'Permission denied (injected)')
-        if 'w' in mode:
+        if 'x' in mode and path in self.files:
+            raise FileExistsError(errno.EEXIST, 'File exists (sim)', path)
+        if 'w' in mode or 'x' in mode:
             self.files[path] = b''            # open(..., 'w') truncates at once
+            return _SimFile(self, path, mode)
+        if 'a' in mode:
+            self.files.setdefault(path, b'')  # open(..., 'a') creates, keeps the content
             return _SimFile(self, path, mode)
         if path not in self.files:
             raise FileNotFoundError(errno.ENOENT, 'No such file (sim)', path)
